@@ -425,6 +425,9 @@ CORPUS = [
 
 def main(argv):
     ck = Check("C02", argv)
+    if os.environ.get("C02_SHRINK_BUDGET"):      # development only: cheaper minimisation when trying broken variants
+        _b, _orig = int(os.environ["C02_SHRINK_BUDGET"]), ck.shrink
+        ck.shrink = lambda h, fails, budget=120: _orig(h, fails, budget=_b)
     ck.rule = ("histories of 6-40 operations on 6 handle variables (malloc with/without data, malloc from memory, wrapMemory, "
                "slice, +, cast, setDtype, clone, copyFrom/copyTo host and device, assignment, free, direct host access to the "
                "wrapped arrays) on a Serial or OpenMP device; dtype sizes 1,2,4,8,12; sizes 0-256 bytes; counts and offsets "
